@@ -63,3 +63,34 @@ pub fn diff(args: Args) {
         }
     }
 }
+
+/// SVNEUT — development probe: apply one triage rewrite to a replay file's design and show the diff lines + analyzer verdict.
+pub fn neut(args: Args) {
+    let rp = args.get("file").expect("--set file=<replay json>").to_string();
+    let which = args.get("class").unwrap_or("c17-R8").to_string();
+    let v: vcommon::Json = serde_json::from_str(&std::fs::read_to_string(&rp).unwrap()).unwrap();
+    let text = v["case"]["design"].as_str().unwrap().to_string();
+    for k in crate::triage::classes() {
+        if k.name != which {
+            continue;
+        }
+        let t = (k.rewrite)(&text);
+        for (a, b) in text.lines().zip(t.lines()) {
+            if a != b {
+                println!("- {a}\n+ {b}");
+            }
+        }
+        if let Some(o) = args.get("out") {
+            std::fs::write(o, &t).unwrap();
+        }
+        let t2 = t.clone();
+        let r = fresh_thread(STACK_64M, move || {
+            let md = metadata_from_toml("", "");
+            match analyze_one(&t2, &md) {
+                Err(e) => format!("PARSE ERROR {e:?}"),
+                Ok(a) => format!("codes {:?} errors {:?}", a.all_codes(), a.errors.iter().filter(|e| e.is_error()).map(|e| e.to_string()).take(3).collect::<Vec<_>>()),
+            }
+        });
+        println!("{r:?}");
+    }
+}
